@@ -17,6 +17,8 @@ RULE = ('Generated sequences of EVENT/BINARY_EVENT packets (ids None, 0, '
         'namespaces in between, against a server with function handlers, a '
         'catch-all and a class-based namespace (optionally also a function '
         'handler on the catch-all namespace for an event nobody sends); '
+        'a sender disconnecting right behind its events, before their '
+        'background handlers have run; '
         'async_handlers on/off (on: '
         'background tasks collected and run in a generated order); both '
         'servers. Oracle: exactly one invocation (right target, sender sid, '
@@ -67,6 +69,15 @@ def strategy(tier):
                                                  max_size=12),
                                'settle': st.lists(st.integers(0, 7),
                                                   max_size=6)}),
+        # ... and one of the senders disconnects right behind its events,
+        # before any background handler has run
+        st.fixed_dictionaries({'op': st.just('burst'),
+                               'events': st.lists(ev, min_size=1, max_size=3),
+                               'order': st.lists(st.integers(0, 7),
+                                                 max_size=8),
+                               'settle': st.lists(st.integers(0, 7),
+                                                  max_size=6),
+                               'then_disc': st.integers(0, 3)}),
         st.fixed_dictionaries({'op': st.just('connect'),
                                't': st.integers(0, 3),
                                'ns': st.integers(0, 3)}),
@@ -359,6 +370,17 @@ def _run(case, w):
             w.h.feed(w.t[pick], f, settle=False)
             if last:
                 arrival.append(tg)
+        if op.get('then_disc') is not None:
+            senders = [e for e in expected if e['connected']]
+            if senders:
+                e_ = senders[op['then_disc'] % len(senders)]
+                dci = w.client_on(e_['t'], e_['ns'])
+                if dci is not None and not any(open_binary.values()):
+                    for f in wire.frames(wire.DISCONNECT, e_['ns']):
+                        w.h.feed(w.t[e_['t']], f, settle=False)
+                    w.mark_dead(dci)
+                    labels['disconnect_right_behind_events'] = True
+                    labels['nontrivial'] = True
         w.h.settle(op['settle'] if case['async_handlers'] else None)
         got_pkts = w.recv_all()
 
